@@ -45,8 +45,45 @@ struct RunState {
 };
 static RunState RS;
 // platform realloc seam: the next call fails when a realloc op asks for it (b = 1)
-static void* (*g_realRealloc)(void*, size_t) = 0; static bool g_failNextRealloc = false;
-static void* simRealloc(void* p, size_t n) { if (g_failNextRealloc) { g_failNextRealloc = false; fired("platform_realloc_null"); return 0; } return g_realRealloc(p, n); }
+// Platform heap seam. The leak detector files blocks by (address mod 73); with the C library's heap that residue changes from process to process,
+// so anything that depends on which blocks share a bucket would not replay. The seam hands out addresses inside larger C-library blocks such that
+// the residue of every address is a function of the run's seed and the allocation count (and, in some runs, the same for all blocks).
+static void* (*g_realMalloc)(size_t) = 0; static void* (*g_realRealloc)(void*, size_t) = 0; static void (*g_realFree)(void*) = 0; static bool g_failNextRealloc = false;
+struct Steered { void* raw; size_t size; };
+static Map<uintptr_t, Steered>& steered() { static Map<uintptr_t, Steered>* m = new (::malloc(sizeof(Map<uintptr_t, Steered>))) Map<uintptr_t, Steered>(); return *m; }
+static uint64_t g_steerSeed = 0, g_steerCount = 0; static int g_steerMode = -1;      // -1 varied residues, 0..72 every block in that bucket
+static void* steerMalloc(size_t n) {
+    char* raw = (char*)g_realMalloc(n + 16 * 73 + 32);
+    if (!raw) return 0;
+    unsigned want = g_steerMode >= 0 ? (unsigned)g_steerMode : (unsigned)(mix64(g_steerSeed, ++g_steerCount) % 73);
+    uintptr_t a = ((uintptr_t)raw + 15) & ~(uintptr_t)15;
+    while (a % 73 != want) a += 16;
+    Steered st; st.raw = raw; st.size = n; steered()[a] = st;
+    return (void*)a;
+}
+static void steerFree(void* p) {
+    if (!p) return;
+    Map<uintptr_t, Steered>::iterator it = steered().find((uintptr_t)p);
+    if (it == steered().end()) { g_realFree(p); return; }       // allocated before the seam existed
+    void* raw = it->second.raw; steered().erase(it); g_realFree(raw);
+}
+static void* simRealloc(void* p, size_t n) {
+    if (g_failNextRealloc) { g_failNextRealloc = false; fired("platform_realloc_null"); return 0; }
+    if (!p) return steerMalloc(n);
+    Map<uintptr_t, Steered>::iterator it = steered().find((uintptr_t)p);
+    if (it == steered().end()) return g_realRealloc(p, n);
+    size_t old = it->second.size;
+    void* q = steerMalloc(n ? n : 1);
+    if (!q) return 0;
+    memcpy(q, p, old < n ? old : n);
+    steerFree(p);
+    return q;
+}
+static void installHeapSeam() {
+    if (g_realMalloc) return;
+    g_realMalloc = PlatformSpecificMalloc; g_realRealloc = PlatformSpecificRealloc; g_realFree = PlatformSpecificFree;
+    PlatformSpecificMalloc = steerMalloc; PlatformSpecificRealloc = simRealloc; PlatformSpecificFree = steerFree;
+}
 
 static int g_init[N_TARGETS];
 static int g_val[N_VALUES];
@@ -261,7 +298,6 @@ static void execOp(const Group& T, const Op& o) {
         Slot& s = RS.slots[o.a % N_SLOTS];
         if (!s.p || s.family != 2) break;
         if (o.b == 1) {                      // the platform's realloc answers NULL: the block stays what and whose it was
-            if (!g_realRealloc) { g_realRealloc = PlatformSpecificRealloc; PlatformSpecificRealloc = simRealloc; }
             g_failNextRealloc = true;
             void* q = cpputest_realloc_location(s.p, (size_t)o.c, file, line);
             g_failNextRealloc = false;
@@ -462,6 +498,7 @@ static void staticWrapperEpilogue(const Desc& d, Obs& o) {
 
 void executeRun(const Desc& d, Obs& o) {
     installBasicSeams();
+    installHeapSeam(); g_steerSeed = d.seed; g_steerCount = 0; g_steerMode = (int)d.pi("bucket", -1);
     static bool first = true;
     if (first) { first = false; for (int i = 0; i < N_TARGETS; i++) g_tgt[i] = &g_init[i]; }
     MemoryLeakWarningPlugin* leak = new (leakPluginStorage()) MemoryLeakWarningPlugin(DEF_PLUGIN_MEM_LEAK);
